@@ -270,6 +270,26 @@ def run(ctx):
         rep = dict(rho=str(rho), step=step, order=order, num_terms=nt, length=length, ncols=ncols,
                    L=[str(x) for x in Ls], a=[[str(x) for x in a] for a in As], h0=str(h0), object_reconfigured=reused)
         ctx.keep('Richardson', new, **rep)
+        if not cplx and rng.random() < 0.25:
+            # the dtype of the sequence is not part of its value: the same whole numbers as an integer array (or the same values as
+            # float32) must be mapped to what their float64 copy is mapped to
+            big = float(np.max(np.abs(seq))) if np.all(np.isfinite(seq)) else float('inf')
+            if big >= 1e30:
+                continue
+            alt = np.rint(seq).astype(rng.choice([np.int64, np.int32])) if (rng.random() < 0.6 and big < 1e9) else seq.astype(np.float32)
+            try:
+                new_a, err_a, _st = R(alt, steps)
+                new_f, err_f, _st = R(alt.astype(np.float64), steps)
+            except Exception as ex_:
+                ctx.violation('Richardson raised %r on a sequence of dtype %s' % (ex_, alt.dtype), **rep)
+                continue
+            scale_a = float(np.max(np.abs(new_f))) + 1e-300
+            if np.shape(new_a) != np.shape(new_f) or float(np.max(np.abs(np.asarray(new_a, dtype=float) - new_f))) > 1e-12 * scale_a or \
+                    float(np.max(np.abs(np.asarray(err_a, dtype=float) - err_f))) > 1e-9 * (float(np.max(np.abs(err_f))) + 1e-300):
+                ctx.violation('the result depends on the dtype of the sequence: an integer / float32 sequence is not mapped to what its float64 '
+                              'copy is mapped to', dtype=str(alt.dtype), got=np.asarray(new_a, dtype=float).ravel()[:6].tolist(),
+                              float64=new_f.ravel()[:6].tolist(), **rep)
+                continue
         if new.shape[0] != length - used or new.shape[1:] != (ncols,):
             ctx.violation('number of outputs is not sequence length minus terms used', got=list(new.shape), **rep)
             continue
